@@ -17,8 +17,11 @@ type Dataset struct {
 	Chunk   []uint64
 	Filters []string
 	Written bool
-	Raw     []byte   // element bytes (non-vlen), row-major
-	VLen    [][]byte // per-element payload (vlen)
+	// Shrunk: some dimension was reduced since the last full write.
+	// Regrown: a dimension grew again after that (the regrown region must read as zero).
+	Shrunk, Regrown bool
+	Raw             []byte // element bytes (non-vlen), row-major
+	VLen            [][]byte // per-element payload (vlen)
 }
 
 // Node is a group, dataset or link object. Hard links share the *Node.
@@ -167,6 +170,7 @@ func (m *Model) Apply(op *trace.Op) error {
 			}
 		}
 		ds.Written = true
+		ds.Shrunk, ds.Regrown = false, false
 	case "resize":
 		n := m.Lookup(op.Path)
 		if n == nil || n.Kind != "dataset" {
@@ -250,6 +254,18 @@ func (m *Model) Apply(op *trace.Op) error {
 func (ds *Dataset) resize(newDims []uint64) {
 	old := ds.Dims
 	ds.Dims = append([]uint64(nil), newDims...)
+	if ds.Written && len(old) == len(newDims) {
+		for i := range old {
+			if newDims[i] > old[i] && ds.Shrunk {
+				ds.Regrown = true
+			}
+		}
+		for i := range old {
+			if newDims[i] < old[i] {
+				ds.Shrunk = true
+			}
+		}
+	}
 	if !ds.Written || ds.DT.Class == "vlen" {
 		return
 	}
